@@ -300,6 +300,7 @@ func StatePredicates(prefix string) {
 	// ---- C10
 	verifrt.Region(prefix+"bad:c10-send-with-stale-election-id", S.SendNotMaster)
 	verifrt.Region(prefix+"bad:c10-send-before-resync", S.SendWhileUnsynced)
+	verifrt.Region(prefix+"bad:c10-resync-without-repush", S.ResyncNoRepush)
 }
 
 // StepContracts are obligations on one step from an arbitrary state. A contract that fails from an unreachable
